@@ -26,21 +26,29 @@ MANIFEST = dict(
          "claim for arbitrary text rests on an exploration (grammar-generated programs, mutations of examples/ and "
          "modules/, extreme literals, operator runs, deep nesting, random Unicode) run through interpret + diagnostic "
          "rendering under catch_unwind and a watchdog in child processes, in the checked (dev) profile. Machine-checked "
-         "(Coq) only for the modelled arithmetic cores: the checked exponent path (DType::try_power / "
-         "Ratio::checked_mul) returns None exactly where the unchecked path panics and otherwise the same in-range "
-         "result (C08_checked_paths_total, C08_checked_mul_in_range); the factorial loop terminates for every order "
-         ">= 1 (C08_factorial_terminates); kernel-computed witnesses show that the unchecked paths do panic "
-         "(C08_power_overflow_refuted: 1e30*1e30, 2^126+2^126) and that 65536 `!` truncate the order to 0 "
-         "(C08_factorial_truncation_refuted). Seven classes of crashing inputs are OPEN findings (known_findings.json), six "
-         "further ones found by this exploration were fixed in numbat.",
+         "(Coq) only for the modelled arithmetic cores (Ratio<i128> mul/add with lcm, DType::power/try_power, "
+         "multiply/try_multiply/canonicalize, UnitFactor::power, factor merging): the checked paths never panic for any "
+         "factors and exponents (C08_checked_paths_total); the unchecked operations are the checked ones with 'overflow' "
+         "turned into a panic, i.e. they panic exactly where the checked ones report an error and agree otherwise "
+         "(C08_unchecked_is_checked_plus_panic, C08_ratio_ops, C08_checked_mul_in_range); the factorial loop terminates "
+         "for every order >= 1 (C08_factorial_terminates); one kernel-computed witness per open arithmetic finding "
+         "(C08_power_overflow_refuted: 1e30*1e30, 2*2^126, 2^126+2^126; C08_lcm_overflow_refuted: lcm(2^100,3^70); "
+         "C08_factorial_truncation_refuted: 65536 `!` -> order 0; C08_comparison_nan_refuted: inf/inf = NaN on primitive "
+         "floats). Seven classes of crashing inputs are OPEN findings (known_findings.json), nine further defects found by "
+         "this exploration were fixed in numbat.",
     design_ref="DESIGN.md §6 C08, §7 #4-#7; design/misc.md",
     note="Trusted: Coq kernel; Overflow/Model.v as a description of num-rational 0.4.2 and math.rs; the exploration "
          "harness (harness/src/crash.rs). An exploration finding nothing is not a proof of absence.",
     technique="Coq proofs about the panicking arithmetic cores + crash/hang exploration under catch_unwind and a watchdog",
 )
 
-THEOREMS = ["C08_checked_paths_total", "C08_checked_mul_in_range", "C08_factorial_terminates",
-            "C08_power_overflow_refuted", "C08_factorial_truncation_refuted"]
+THEOREMS = ["C08_checked_paths_total", "C08_unchecked_is_checked_plus_panic", "C08_ratio_ops", "C08_checked_mul_in_range",
+            "C08_factorial_terminates", "C08_power_overflow_refuted", "C08_lcm_overflow_refuted",
+            "C08_factorial_truncation_refuted", "C08_comparison_nan_refuted"]
+# C08_comparison_nan_refuted is computed on the kernel's primitive binary64 floats: Print Assumptions lists the
+# primitive type and operations it uses (they are primitives of the kernel, not axioms of this development)
+ALLOWED_AXIOMS = ["float", "mul", "div", "eqb", "compare", "PrimFloat.float", "PrimFloat.mul", "PrimFloat.div",
+                  "PrimFloat.eqb", "PrimFloat.compare"]
 
 CASE_TIMEOUT_MS = 15000
 
@@ -368,7 +376,7 @@ def mutate(rng, text):
 
 def run(chk):
     binary, _ = common.build_harness()
-    proved = chk.prove("Props.C08", THEOREMS, ["theories/Props/C08.vo"])
+    proved = chk.prove("Props.C08", THEOREMS, ["theories/Props/C08.vo"], allowed=ALLOWED_AXIOMS)
     chk.trusted += [
         "Overflow/Model.v describes num-rational 0.4.2 Ratio<i128> mul/add and math.rs factorial by hand; it is not tied to the code by a correspondence "
         "(a panic cannot be diffed against a model value) — its witnesses are replayed on the implementation every run (corpus)",
